@@ -43,8 +43,8 @@ CHECKS = {
     ),
     "C18": dict(
         technique="runtime monitoring: fixpoint oracle format(format(x)) == format(x) over generated layouts (comment-free, exactly-one-comment in every gap class, comments anywhere), dev+release, and `llw -f` followed by `llw -f -c` with the real binary",
-        text="Syntactically valid files in random layouts are formatted twice by the real formatter; any non-fixpoint is classified by the first differing line; classes listed in known_findings.jsonl (comment first after `:`/`(`/`[`; comment after a wrapped line) are reported as KNOWN-FINDING, anything else is a violation. The exit status of `llw -f -c` is compared with format(x)==x.",
-        note="the classification of a non-fixpoint is structural (what precedes the first line that differs between pass 1 and pass 2)",
+        text="Syntactically valid files in random layouts are formatted twice by the real formatter; every hunk in which pass 1 and pass 2 differ gets a structural signature; a signature listed as open in known_findings.jsonl would be reported as KNOWN-FINDING (none is open for C18: the former ones were repaired in /repo), anything else is a violation. The exit status of `llw -f -c` is compared with format(x)==x.",
+        note="the signature of a non-fixpoint is structural and per differing hunk (what precedes the hunk, whether the printer moved the comment to a new line), so that one text can carry several signatures",
         design="§3 C18",
     ),
 }
